@@ -215,8 +215,11 @@ def oracle(ctx):
     icases = []
     for _ in range(80 if ctx.thorough else 24):
         ws = {k: [rnd.choice(IW) for _ in range(rnd.randint(1, 5))] for k in ('WantedBy', 'RequiredBy')}
+        ws['Alias'] = [rnd.choice(['alias-one.service', '"alias two.service"', "'sq-alias.service'", 'es\\x2dcaped.service', 'é-alias.service']) for _ in range(rnd.randint(0, 3))]
         text = '[Container]\nImage=localhost/i\n[Install]\n'
         for k, words in ws.items():
+            if not words:
+                continue
             cut = rnd.randint(0, len(words))
             text += f'{k}=' + ' '.join(words[:cut]) + '\n' + (f'{k}=' + rnd.choice([' ', '\t', '  ']).join(words[cut:]) + '\n' if words[cut:] else '')
         icases.append((ws, text))
@@ -242,6 +245,7 @@ def oracle(ctx):
                 pw = plain(w)
                 if '/' not in pw:
                     want.add(f'{pw}{suffix}/a.service')
+        want |= {plain(w) for w in ws['Alias']}
         if links != want:
             res.oracle_failures.append(dict(op='e2e install', input=text, impl_output=dict(exit=rc, links=sorted(links)),
                                             oracle_expectation=f'one link per word without a path separator: {sorted(want)} (missing {sorted(want - links)}, unexpected {sorted(links - want)})'))
